@@ -1049,6 +1049,7 @@ func (s *Sess) run() {
 			}
 		}
 	}
+	s.assumeFreeInvs(entry)
 	// receiver assumed non-nil when the option says so
 	if s.ct != nil {
 		for _, c := range s.ct.Requires {
